@@ -946,6 +946,16 @@ func (env *SpecEnv) call(x *CExpr) (SVal, error) {
 		n.heap = env.loop.entryHeap
 		n.inOld = false
 		return (&n).tr(x.Args[0])
+	case "slicebase", "sliceoff": // identity of the backing array / offset of a slice value
+		a, err := argv(0)
+		if err != nil {
+			return SVal{}, err
+		}
+		if a.Sort != "Slice" {
+			return SVal{}, fmt.Errorf("%s: not a slice", x.Name)
+		}
+		fn := map[string]string{"slicebase": "sbase", "sliceoff": "soff"}[x.Name]
+		return SVal{T: app(fn, a.T), Typ: intT, Sort: "Int"}, nil
 	case "streq": // streq(a, b): same length and same bytes (extensional equality of strings)
 		a, err := argv(0)
 		if err != nil {
@@ -962,6 +972,19 @@ func (env *SpecEnv) call(x *CExpr) (SVal, error) {
 		j := fmt.Sprintf("q!se%d", e.nfresh)
 		return SVal{T: fmt.Sprintf("(and (= (slen %s) (slen %s)) (forall ((%s Int)) (=> (and (<= 0 %s) (< %s (slen %s))) (= (sat %s %s) (sat %s %s)))))",
 			a.T, b.T, j, j, j, a.T, a.T, j, b.T, j), Typ: boolT, Sort: "Bool"}, nil
+	case "unchangedArray": // unchangedArray(p): the whole backing array of slice p is as in the old state
+		a, err := argv(0)
+		if err != nil {
+			return SVal{}, err
+		}
+		if a.Sort != "Slice" || a.Typ == nil {
+			return SVal{}, fmt.Errorf("unchangedArray: not a slice")
+		}
+		el := a.Typ.Underlying().(*types.Slice).Elem()
+		c := W.elemComp(el)
+		o := *env
+		o.inOld = true
+		return SVal{T: sEq(app("select", env.heapOf(c), app("sbase", a.T)), app("select", (&o).heapOf(c), app("sbase", a.T))), Typ: boolT, Sort: "Bool"}, nil
 	case "sameOutside": // sameOutside(p): the backing array of slice p is unchanged (w.r.t. old) outside p's own window
 		a, err := argv(0)
 		if err != nil {
